@@ -20,6 +20,11 @@ def body(chk):
              selftest=False, need_regions=need)
     if streams is not None:
         streams.extra_lanes(chk, PID)
+    if PID == 'C13':
+        # adapted searches that issue several protocol-level searches: an early finish() must scrub the page in flight
+        from .c16 import Paged
+        run_lane(chk, Paged, (2, 1, True), bounds={'pages': '1..2', 'entries per page': '0..1', 'early finish': 'after the first entry of page 2', 'chaining': 'alone or behind EntriesOnly'},
+                 selftest=False, need_regions=('early-finish',))
     chk.assumptions += driver.ASSUMPTIONS.get(PID, []) + driver.ASSUMPTIONS['all']
 
 
